@@ -1025,6 +1025,12 @@ def r04i(repo, chk, R="R04.i"):
                         handed.append(c.func.value.attr)
         key = f"generate_code:{fn.qual}:the kept device-id register gets the accesses of the device name"
         where = f"{g.path}:{st.lineno} in {fn.qual}"
+        # every id that lives in a register is covered, a named variable as much as a temporary: the variable's own accesses end where the
+        # id is last read BY NAME, the device is used longer
+        narrowed = sorted(t_ for t_, p_ in gs if p_ and ("_is_intermediate" in t_ or "is_overwritten" in t_ or ".name" in t_.split("isinstance")[0] and "startswith" in t_))
+        chk.judge(R, f"generate_code:{fn.qual}:every register that holds a device id is kept, whatever kind of value it is", not narrowed,
+                  f"the device-id register is kept (and given the device's accesses) only under {narrowed}: an id held in a parameter or a named local is released after "
+                  f"the last use of THAT name, the next local takes the register and 'dev.On = 1' addresses another device", {"guards": sorted(t_ for t_, p_ in gs)}, where)
         if not handed:
             chk.bad(R, key, f"{reg} is kept beyond its statement ({norm(st)}), but nothing records that the device name is read later: inside a function the register's "
                             f"lifetime is the line of 'dev = Device(n + 1)', the next value takes it and 'dev.On = a' addresses another device", None, where)
